@@ -607,7 +607,9 @@ def check_case(ctx, case, res, val, stats):
             if bad:
                 ck.report("C06:reachable:" + bad.replace(" ", "-"), {"run": run, "clause": bad, "full": sorted(full_code)}, True)
             else:
-                ck.report("C06:model-differs:reachable-replay", {"run": run, "model_visited": vis, "model_pops": pops}, False)
+                # the replayed mirror differs but every clause of the proved cut-off spec
+                # (props/C06.v reachable_cutoff_spec, all pop orders) holds of msdm's result: drift, no alarm
+                stats["reach_replay_drift"] += 1
         if run["max"] is not None and R != full_code:
             stats["cutoff_binding"] += 1
         if run["max"] is None and R == full_code and R != full_words:
@@ -756,7 +758,7 @@ def run(ctx):
         terms.append(case_term(case, res))
         idx.append(i)
     vals = ctx.coq(PRE, terms, shard=10 if tier == "quick" else 40)
-    stats = {k: 0 for k in ("reach_runs", "cutoff_binding", "absorbing_initial_expanded", "views", "round_trips",
+    stats = {k: 0 for k in ("reach_runs", "reach_replay_drift", "cutoff_binding", "absorbing_initial_expanded", "views", "round_trips",
                             "quick_views", "plan_compared", "plan_skipped_different_lists", "plan_initial_value_rounding")}
     feats = {}
     distinct = set()
